@@ -6,7 +6,8 @@ use crate::choice::Choices;
 use crate::gen::{clean, syn, wild};
 use crate::model::*;
 
-pub const CHAR_TABLE: [char; 44] = [
+pub const CHAR_TABLE: [char; 48] = [
+    '\u{2003}', '\u{3000}', '\u{1680}', '\u{85}',
     ' ', ' ', '\n', '\n', '\t', '\r', ',', '.', '#', ':', '(', ')', '"', '\'', '\\', '-', '_', '+', '@', ';', '!', '0', '1', '9',
     'x', 'b', 'a', 's', 'p', 't', 'z', 'A', 'F', '\0', '\u{7f}', '\u{a0}', '\u{e9}', '\u{2028}', '\u{1f600}', '\u{feff}', '\u{202e}', '$', '=', '%',
 ];
@@ -211,11 +212,46 @@ pub fn family(kind: usize, n: usize) -> String {
         12 => "\"".repeat(n),
         13 => format!(".macro\n{}", "nop\n".repeat(n)),
         14 => (0..n).map(|_| "lw a0, 0(sp\n").collect(),
-        _ => format!("li a0, {}\n", "9".repeat(n)),
+        15 => format!("li a0, {}\n", "9".repeat(n)),
+        16 => {
+            // a function that leaves a saved register unrestored after n if/else blocks with arms of equal length
+            let mut s = String::from("main:\n    jal f\n    li a7, 10\n    ecall\nf:\n    li s1, 3\n");
+            for k in 0..n {
+                s.push_str(&format!("    beqz a0, e{k}\n    addi a1, a1, 1\n    j j{k}\ne{k}:\n    slli a1, a1, 1\n    addi a1, a1, 2\nj{k}:\n"));
+            }
+            s.push_str("    mv a0, a1\n    ret\n");
+            s
+        }
+        17 => {
+            // extreme immediates in stack-pointer arithmetic and stack accesses
+            const G: [i64; 12] = [0, 4, -4, 2047, -2048, 2048, 0x7fff_fffc, 0x7fff_ffff, -0x8000_0000, -0x7fff_fffc, 0x4000_0000, -0x4000_0000];
+            let a = G[n % G.len()];
+            let b = G[(n / G.len()) % G.len()];
+            let c = G[(n / (G.len() * G.len())) % G.len()];
+            format!("main:\n    addi sp, sp, {a}\n    sw a0, {b}(sp)\n    addi sp, sp, {c}\n    lw a1, {b}(sp)\n    sw a1, {c}(sp)\n    addi sp, sp, {a}\n    li a7, 10\n    ecall\n")
+        }
+        _ => {
+            // lines with Unicode white space in front of, inside and after the statement
+            const WS: [char; 7] = ['\u{a0}', '\u{2003}', '\u{3000}', '\u{1680}', '\u{85}', '\u{2028}', '\u{feff}'];
+            let w = WS[n % WS.len()];
+            let variant = (n / WS.len()) % 8;
+            let line = match variant {
+                0 => format!("{w}{w}add a0, a0, q9"),
+                1 => format!("  {w} addi t0, t0"),
+                2 => format!("\t{w}li t1, 5"),
+                3 => format!("    add{w}a0, a0, a0"),
+                4 => format!("    li t1, 5 # {w}{w} comment\n{w}"),
+                // white space inside a literal, followed by a token that is reported
+                6 => format!("    li t1, '{w}' junk"),
+                7 => format!("    .asciz \"a{w}{w}b\" )"),
+                _ => format!("{w}    lw a0, 4(sp"),
+            };
+            format!("main:\n{line}\n    li t2, 7\n    li a7, 10\n    ecall\n")
+        }
     }
 }
 
-pub const N_FAMILIES: usize = 16;
+pub const N_FAMILIES: usize = 19;
 
 #[derive(Clone, Debug)]
 pub struct HostileCase {
@@ -263,6 +299,12 @@ pub fn hostile(ch: &mut Choices, big: bool) -> HostileCase {
                         2 => "".to_string(),
                         3 => "main.s".to_string(),
                         _ => ch.pick(&names).clone(),
+                    };
+                    // the same file under another spelling
+                    let target = match ch.below(5) {
+                        0 if !target.is_empty() => format!("./{target}"),
+                        1 if !target.is_empty() => format!("sub/../{target}"),
+                        _ => target,
                     };
                     let at = ch.below(parts.len() + 1);
                     let quote = if ch.chance(1, 6) { "" } else { "\"" };
